@@ -122,6 +122,13 @@ def main(tier):
                     ok = len(inv) >= 1 and all(i == ["return", ["Some", [variant, c]]] for i in inv)
                     run.ob("edge-tables", "NodeEdge/%s: %s then its inverse returns the original edge" % (prof, meth), ok,
                            key="edge-tables|%s is not inverted by the opposite step (%s)" % (meth, variant), detail=rec, nontrivial=nt + ("inv",))
+            elif t == "Descendants::next::steps":
+                exp = rec.get("expected")
+                got = rec.get("result")
+                got = list(got) if isinstance(got, (list, tuple)) else got
+                ok = rec["exit"] == "return" and got == exp and rec.get("inner_calls") == len(rec["case"]) and rec.get("writes") == 0
+                run.ob("descendants", "Descendants::next/%s over inner edges %s: skips End edges, yields the first Start's node, takes no further edge" % (prof, rec["case"]), ok,
+                       key="descendants|next over inner edges %s gives %s" % (rec["case"], got if rec["exit"] == "return" else rec["exit"]), detail=rec, nontrivial=nt, sample=True)
             elif t == "Descendants::next::closure":
                 variant = rec["case"][0]
                 exp = ["Some", rec["node"]] if variant == "Start" else None
@@ -129,14 +136,18 @@ def main(tier):
                        key="descendants|closure maps %s wrongly" % variant, detail=rec, nontrivial=nt, sample=True)
         need = ["Ancestors::new", "Ancestors::next", "Predecessors::next", "ReverseChildren::new", "ReverseChildren::next", "Children::new", "Children::next",
                 "FollowingSiblings::new", "FollowingSiblings::next", "PrecedingSiblings::new", "PrecedingSiblings::next", "Traverse::new", "Traverse::next",
-                "ReverseTraverse::new", "ReverseTraverse::next", "NodeEdge::next_traverse", "NodeEdge::prev_traverse", "Descendants::next::closure", "Descendants::new"]
+                "ReverseTraverse::new", "ReverseTraverse::next", "NodeEdge::next_traverse", "NodeEdge::prev_traverse", "Descendants::new"]
+        need.append("Descendants::next::steps" if seen.get("Descendants::next::steps") else "Descendants::next::closure")
         for t in need:
             run.ob("coverage", "table %s/%s computed (%d rows)" % (t, prof, seen.get(t, 0)), seen.get(t, 0) >= 1, key="coverage|no rows for " + t)
         run.floor("table rows (%s)" % prof, len(recs), 80)
     # E1: Descendants::next is find_map over self.0; NodeId::xxx(arena) constructors call K::new(arena, self)
     prog = facts.load("dev", None)
     dn = [k for k in prog.fns if k.startswith("<crate::traverse::Descendants<") and k.endswith("::next")]
+    steps_used = any(rec.get("table") == "Descendants::next::steps" for recs in data.values() for rec in recs)
     for k in dn:
+        if steps_used:
+            break        # an explicit loop: decided by the step table above
         f = prog.fns[k]
         names = [rules.callee_name(t["callee"]) for _, t in prog.calls(f)]
         ok = names == ["core::iter::traits::iterator::Iterator::find_map"]
